@@ -252,7 +252,6 @@ func checkC20(c *fw.Ctx) {
 	}
 }
 
-
 // andAll is the conjunction of two conditions.
 func andAll(a, b fw.DNF) fw.DNF {
 	var out fw.DNF
